@@ -43,7 +43,7 @@ def templates(t, step):
         ("-c", "color.ui=always", "log", "-1"), ("-c", "color.ui=always", "diff", "--stat"), ("-C", ".", "status", "-s"),
         ("-C", "dir", "status", "-s"), ("--no-pager", "log", "-1", "--format=%H"), ("--git-dir", ".git", "--work-tree", ".", "status", "-s"),
         ("--git-dir=.git", "log", "-1", "--oneline"), ("--exec-path",), ("--html-path",), ("--man-path",), ("--info-path",),
-        ("--html-path", "status"), ("-p", "log", "-1"), ("--paginate", "log", "-1"), ("--literal-pathspecs", "add", f), ("--namespace=x", "log", "-1"),
+        ("--html-path", "status"), ("--", "status"), ("--version", "status", "-s"), ("-v", "log", "-1"), ("-p", "log", "-1"), ("--paginate", "log", "-1"), ("--literal-pathspecs", "add", f), ("--namespace=x", "log", "-1"),
         ("-c", "alias.zz=status -s", "zz"), ("--bare", "rev-parse", "--is-bare-repository"), ("--no-replace-objects", "log", "-1"),
         ("rev-parse", "HEAD"), ("rev-parse", "--abbrev-ref", "HEAD"), ("ls-files", "-s"), ("ls-tree", "-r", "HEAD"), ("for-each-ref",), ("show-ref",),
         ("cat-file", "-p", "HEAD"), ("tag", "t%d" % step), ("tag", "-a", "at%d" % step, "-m", "annot"), ("tag", "-l"), ("blame", f), ("blame", "-L", "1,2", f),
